@@ -14,6 +14,12 @@ import subprocess
 import sys
 
 WT = "/tmp/confirm_wt"
+ROUND = os.environ.get("MUT_ROUND", "1")
+SRC = "/tmp/mut_%s" if ROUND == "1" else "/tmp/mut" + ROUND + "_%s"
+
+
+def seeded_id(pid, n):
+    return "%s-%d" % (pid, n) if ROUND == "1" else "%s-r%s-%d" % (pid, ROUND, n)
 ADDR = re.compile(r"0x[0-9a-fA-F]+")
 
 
@@ -52,7 +58,7 @@ def norm(text):
 
 def run_demo(pid, n, release):
     """-> (passes, transcript)"""
-    d = "/tmp/mut_%s" % pid
+    d = SRC % pid
     prof = "--release" if release else ""
     if os.path.exists("%s/demo%d.yl" % (d, n)):
         rc, out = sh("cargo build --manifest-path %s/Cargo.toml --offline -q %s -p yarel-cli >/dev/null 2>&1; cargo run --manifest-path %s/Cargo.toml --offline -q %s -p yarel-cli -- demo%d.yl 2>/dev/null" % (
@@ -65,7 +71,7 @@ def run_demo(pid, n, release):
         exp = open("%s/demo%d.expected" % (d, n)).read()
         ok = norm(out) == norm(exp)
         return ok, out[-1500:]
-    if os.path.exists("%s/demo%d.rs" % (d, n)):
+    if os.path.exists("%s/demo%d.rs" % (d, n)) and not os.path.exists("%s/demo%d.yl" % (d, n)):
         src = open("%s/demo%d.rs" % (d, n)).read()
         if "#[test]" in src:
             dst = "%s/yarel/tests/demo%d.rs" % (WT, n)
@@ -73,12 +79,19 @@ def run_demo(pid, n, release):
             rc, out = sh("cargo test --offline %s -p yarel --test demo%d 2>&1 | tail -25" % (prof, n), cwd=WT, timeout=900)
             os.remove(dst)
             return ("test result: ok" in out), out[-1500:]
-        os.makedirs("%s/yarel-cli/examples" % WT, exist_ok=True)
-        dst = "%s/yarel-cli/examples/demo%d.rs" % (WT, n)
+        if ROUND == "1":
+            os.makedirs("%s/yarel-cli/examples" % WT, exist_ok=True)
+            dst = "%s/yarel-cli/examples/demo%d.rs" % (WT, n)
+            shutil.copy("%s/demo%d.rs" % (d, n), dst)
+            rc, out = sh("cargo run --offline %s -q -p yarel-cli --example demo%d 2>&1 | tail -15; echo rc=${PIPESTATUS[0]}" % (prof, n), cwd=WT, timeout=1500)
+            os.remove(dst)
+            return ("PASS" in out and "FAIL" not in out), out[-1500:]
+        os.makedirs("%s/yarel/examples" % WT, exist_ok=True)
+        dst = "%s/yarel/examples/demo%d.rs" % (WT, n)
         shutil.copy("%s/demo%d.rs" % (d, n), dst)
-        rc, out = sh("cargo run --offline %s -q -p yarel-cli --example demo%d 2>&1 | tail -15; echo rc=${PIPESTATUS[0]}" % (prof, n), cwd=WT, timeout=1500)
-        os.remove(dst)
-        return ("PASS" in out and "FAIL" not in out), out[-1500:]
+        rc, out = sh("bash -c 'cargo run --offline %s -q -p yarel --features verif_hooks --example demo%d 2>&1 | tail -25; echo rc=${PIPESTATUS[0]}'" % (prof, n), cwd=WT, timeout=1500)
+        shutil.rmtree("%s/yarel/examples" % WT)
+        return ("rc=0" in out and "FAIL" not in out), out[-1500:]
     return None, "no demo found"
 
 
@@ -89,17 +102,20 @@ def main():
         for i in range(0, len(args), 2):
             cands.append((args[i], int(args[i + 1])))
     else:
-        for p in sorted(glob.glob("/tmp/mut_*/patch*.diff")):
-            pid = p.split("/")[2][4:]
+        for p in sorted(glob.glob((SRC % "*") + "/patch*.diff")):
+            pid = p.split("/")[2].split("_")[1]
             cands.append((pid, int(re.search(r"patch(\d+)", p).group(1))))
     ensure_wt()
     base_pass, base_fail, _ = suite()
     print("baseline on HEAD %s: %s passed, failed %s" % (head()[:7], base_pass, base_fail), flush=True)
     results = {}
     for pid, n in cands:
-        key = "%s-%d" % (pid, n)
-        patch = "/tmp/mut_%s/patch%d.diff" % (pid, n)
-        meta = json.load(open("/tmp/mut_%s/meta%d.json" % (pid, n)))
+        key = seeded_id(pid, n)
+        patch = (SRC % pid) + "/patch%d.diff" % n
+        adapted = "/tmp/adapted/%sr%s-%d.diff" % (pid, ROUND, n)
+        if os.path.exists(adapted):
+            patch = adapted       # the agent's patch re-done by hand on top of later fix: commits (same change)
+        meta = json.load(open((SRC % pid) + "/meta%d.json" % n))
         release = meta.get("build_config") == "release"
         sh("git reset -q --hard && git clean -qfd -e target", cwd=WT)
         ok_clean, tr_clean = run_demo(pid, n, release)
@@ -123,11 +139,12 @@ def main():
             dst = "/verif/seeded/%s" % key
             os.makedirs(dst, exist_ok=True)
             open(dst + "/patch.diff", "w").write(diff)
-            for f in glob.glob("/tmp/mut_%s/demo%d*" % (pid, n)) + glob.glob("/tmp/mut_%s/demo_repl.sh" % pid) + glob.glob("/tmp/mut_%s/run_demo.sh" % pid):
+            for f in glob.glob((SRC % pid) + "/demo%d*" % n) + glob.glob((SRC % pid) + "/demo_repl.sh") + glob.glob((SRC % pid) + "/run_demo.sh"):
                 shutil.copy(f, dst)
             m = {"property": pid, "title": meta.get("title"), "breaks": meta.get("what_it_breaks"),
                  "needs_to_manifest": meta.get("needs_to_manifest"), "files_touched": meta.get("files_touched"),
-                 "build_config": meta.get("build_config"), "origin": "independent sub-agent given only the property record and a scratch worktree",
+                 "build_config": meta.get("build_config"), "round": int(ROUND), "patch_adapted_by_hand": os.path.exists(adapted),
+                 "origin": "independent sub-agent given only the property record and a scratch worktree",
                  "confirmed": {"against_repo_head": head()[:7], "suite_with_patch": "%s passed, failed: %s (baseline: %s passed, failed: %s)" % (p_pass, p_fail, base_pass, base_fail),
                                "demo_without_patch": "passes", "demo_with_patch": "fails",
                                "commands": ["git apply patch.diff (scratch worktree of /repo HEAD)", "cargo test --workspace --no-fail-fast --offline",
